@@ -12,4 +12,7 @@ def templates(tier, seed):
     for N in ((2,) if tier == "quick" else (1, 2, 3)):
         for shape in ("single", "override_field", "add_field", "three_level", "optional_alias", "check_methods", "config_extras", "inherited_cls_check", "falsy_alias"):
             ts.append(Template(f"{shape}/N={N}", t_model, (shape, N)))
+    import tmpl_pl
+
+    ts += [Template(tid, tmpl.pick(fn, LABELS), args) for tid, fn, args in tmpl_pl.model_cases(tier)]
     return ts
